@@ -677,7 +677,7 @@ impl World for JoinWorld {
         }
         // the whole history closer to zero
         if let Some(m) = t.left.iter().chain(&t.right).map(|e| e.ts).min() {
-            for off in [m, m / 2, 1u64 << 31] {
+            for off in [1u64 << 31, m / 2, m] { // inserted at the front one by one: the largest step ends up first
                 if off > 0 && off <= m {
                     let mut c = t.clone();
                     for e in c.left.iter_mut().chain(c.right.iter_mut()) {
